@@ -291,13 +291,20 @@ def judge_image(res):
     if res.get("probe") not in (None, "ok"):
         out.append(("write_after_recovery_not_readable", "", str(res.get("probe"))[:300]))
     sec = res.get("second")
-    if sec is not None:
-        if sec.get("open") != "ok":
-            out.append(("second_reopen_refused", "", str(sec.get("open"))[:300]))
-        else:
-            for e in sec.get("errors") or []:
-                out.append(("second_" + str(e.get("kind")), e.get("cause", ""), json.dumps(e)[:300]))
+    if sec is not None and sec.get("open") == "ok":
+        # (a second open that fails is C07's subject - unless the value log is what fails, see `vlog_refusal`)
+        for e in sec.get("errors") or []:
+            out.append(("second_" + str(e.get("kind")), e.get("cause", ""), json.dumps(e)[:300]))
+    elif sec is not None and vlog_refusal(str(sec.get("open"))):
+        out.append(("second_reopen_refused", "vlog", str(sec.get("open"))[:300]))
     return out
+
+
+def vlog_refusal(msg):
+    """is a refused open the value log's doing? Only used where the structural test (same image with complete value-log
+    files opens) is not available: process-crash images and second opens. It decides which property reports the refusal
+    (C07 reports all of them), not whether it is one."""
+    return any(w in msg for w in ("VLog", "vlog", "File ID mismatch"))
 
 
 def image_models(fs, o):
@@ -355,6 +362,9 @@ def sweep_workload(task):
                 out["images"] += 1
                 out["by_model"][model.split(":")[0]] = out["by_model"].get(model.split(":")[0], 0) + 1
                 found = judge_image(res)
+                if found and found[0][0] == "reopen_refused" and model == "process" and not vlog_refusal(found[0][2]):
+                    out["sibling"] += 1           # e.g. a half-created index file: C07 / C18
+                    found = []
                 if found and found[0][0].startswith("reopen_") and model != "process":
                     # whose failure is it? the same image with complete value-log files
                     ctl = os.path.join(base, "ctl")
